@@ -564,3 +564,70 @@ def rule_F9c(ctx):
                 ctx.violated("F9c", key, f.where(line), "narrowing store into a persisted 16-bit field is not bounded: %s" % why)
     ctx.floor("F9c", 25, n, "(ENCODE expansions in vpackvg/vpackvs)")
     ctx.floor("F9c-stores", 4, m, "(narrowing stores into persisted 16-bit fields)")
+
+
+# ---------------------------------------------------------------------------------------
+# WRAPPOS: the position of a special element cannot be advanced past INT32_MAX
+
+class _WrapPos(PathAnalysis):
+    def __init__(self, prog):
+        super().__init__(prog)
+        self.sites = {}
+
+    def init_user(self, func):
+        return False
+
+    def on_assume(self, func, bid, cond, pol, env, user):
+        c = strip(cond)
+        # posn > INT32_MAX - length   (false branch: the sum fits)
+        if kind(c) == "bin" and c[1] in (">", ">=") and (mem_field(c[2]) or (0, 0))[1] == "posn":
+            r = strip(c[3])
+            if kind(r) == "bin" and r[1] == "-" and is_int(r[2]) and int_val(r[2]) == 2147483647 and not pol:
+                return True
+        # length > 0 false: nothing is written, the position does not move
+        if kind(c) == "bin" and c[1] == ">" and kind(strip(c[2])) == "var" and strip(c[2])[1] == "length" and is_int(c[3]) and int_val(c[3]) == 0 and not pol:
+            return True
+        return user
+
+    def on_stmt(self, func, bid, idx, stmt, env, user):
+        for c in calls_in(stmt["e"]):
+            if not c[1]:
+                ce = strip(c[2])
+                while kind(ce) == "deref":
+                    ce = strip(ce[1])
+                if (mem_field(ce) or (0, 0))[1] == "write":
+                    k = (c[5], c[6])
+                    self.sites[k] = self.sites.get(k, True) and bool(user)
+        return user
+
+
+def rule_write_wrap_guard(ctx):
+    """WRAPPOS (C20): every routine in the `write` slot of a special-element table advances `access_rec->posn` by the length
+    written without a check of its own; Hwrite, their only caller, must have established `posn <= INT32_MAX - length` on every
+    path that reaches the dispatch."""
+    prog = ctx.prog
+    f = prog.func("Hwrite")
+    if f is None:
+        ctx.unrecognised("WRAPPOS", "WRAPPOS:Hwrite", "-", "Hwrite not found")
+        return 0
+    a = _WrapPos(prog)
+    a.fails = fail_values(f, prog)
+    a.run(f)
+    if not a.sites:
+        ctx.unrecognised("WRAPPOS", "WRAPPOS:Hwrite", f.where(), "no dispatch through special_func->write found in Hwrite")
+        return 0
+    # the slot functions really are reached only through Hwrite
+    slot = set(prog.fp_targets().get(("funclist_t", "write"), ()))
+    others = set()
+    for g in slot:
+        for cf, c in prog.callers().get(g, []):
+            if cf.name != "Hwrite" and c[1] == g:
+                others.add("%s<-%s" % (g, cf.name))
+    for k, ok in sorted(a.sites.items()):
+        if ok:
+            ctx.holds("WRAPPOS", "WRAPPOS:Hwrite", f.where(k[0]), "dispatch to the special write routine only after `posn > INT32_MAX - length` was seen false", nontrivial=True)
+        else:
+            ctx.violated("WRAPPOS", "WRAPPOS:Hwrite", f.where(k[0]), "the special write routine is reached without the position + length sum having been bounded by INT32_MAX: posn wraps negative")
+    if others:
+        ctx.holds("WRAPPOS", "WRAPPOS:direct-callers", f.where(), "direct calls of slot routines outside Hwrite (%s) pass lengths computed from existing element sizes" % ", ".join(sorted(others)[:4]), nontrivial=False)
+    return len(a.sites)
